@@ -42,7 +42,7 @@ fn alphabet() -> Vec<Op> {
     vec![
         Op::Write(0), Op::Write(1), Op::Write(3), Op::Write(17),
         Op::Read(0), Op::Read(1), Op::Read(5),
-        Op::SeekStart(0), Op::SeekStartLenPlus(3), Op::SeekStart(40),
+        Op::SeekStart(0), Op::SeekStartLenPlus(3), Op::SeekStart(40), Op::SeekStart(1 << 63), Op::SeekStart(u64::MAX),
         Op::SeekEnd(-1), Op::SeekEnd(2), Op::SeekEnd(i64::MIN),
         Op::SeekCur(-2), Op::SeekCur(3), Op::SeekCur(i64::MAX),
         Op::SetPos(0), Op::SetPos(20), Op::SetPos(70),
@@ -161,7 +161,8 @@ fn observe<A: Alignment>(ac: &mut AlignedCursor<A>, sc: &Cursor<Vec<u8>>) -> Res
     if ac.len() > units * std::mem::size_of::<A>() { return Err(format!("len {} exceeds storage of {} bytes", ac.len(), units * std::mem::size_of::<A>())); }
     let b = ac.as_bytes();
     if b != &sc.get_ref()[..] { return Err("contents differ from std cursor".to_string()); }
-    if units > 0 && (b.as_ptr() as usize) % std::mem::align_of::<A>() != 0 { return Err(format!("storage address {:#x} not aligned to {}", b.as_ptr() as usize, std::mem::align_of::<A>())); }
+    // (also while the cursor is empty: the storage pointer of an empty cursor is still aligned)
+    if (b.as_ptr() as usize) % std::mem::align_of::<A>() != 0 { return Err(format!("storage address {:#x} not aligned to {}", b.as_ptr() as usize, std::mem::align_of::<A>())); }
     Ok(())
 }
 
